@@ -175,3 +175,27 @@ contract(U + "CallBase.match@keyword",
     raises={"*": {}},
     serves=["C08", "C02"],
 )
+
+# U12: EndStmtBase.match - "END [ <type> [ <name> ] ]" (C08: what an END statement carries is what the block check compares)
+REST = "string[3:].lstrip()"
+contract(U + "EndStmtBase.match",
+    types=dict(stmt_type="str", stmt_name="cls?", string="str", require_stmt_type="bool"),
+    defaults=dict(require_stmt_type=False),
+    returns="tuple[str?,ref:Base?]?",
+    requires={"a_type_is_named": "stmt_type != ''"},
+    modifies=["rule_evals"],
+    calls={"stmt_name": "proto:operand_rule"},
+    ensures={
+        "must_start_with_end": "implies(string[:3].upper() != 'END', result is None)",
+        "bare_end": "implies(string[:3].upper() == 'END' and " + REST + " == '', (result is None) == require_stmt_type and "
+                    "implies(result is not None, nonnull(result)[0] is None and nonnull(result)[1] is None))",
+        "type_must_agree": "implies(result is not None and " + REST + " != '', nonnull(result)[0] == stmt_type and " +
+                           REST + "[:len(stmt_type)].upper().replace(' ', '') == stmt_type.replace(' ', ''))",
+        # whatever follows the type is the name: it is handed to the name rule unchanged, never dropped
+        "name_is_the_rest": "implies(result is not None and " + REST + " != '', "
+                            "(nonnull(result)[1] is None) == (" + REST + "[len(stmt_type):].lstrip() == '') and "
+                            "implies(nonnull(result)[1] is not None, stmt_name is not None and rule_text(nonnull(nonnull(result)[1])) == " + REST + "[len(stmt_type):].lstrip()))",
+    },
+    raises={"*": {}},
+    serves=["C08"],
+)
